@@ -9,5 +9,20 @@ import Inkayaku.Props.Translated.Time
 import Inkayaku.Props.Translated.Table
 import Inkayaku.Props.Translated.Magic
 import Inkayaku.Props.Translated.MoveBits
+import Inkayaku.Props.Translated.Check
+import Inkayaku.Props.Translated.ZobristXor
+import Inkayaku.Props.Translated.MakeUnmake
 /-! Umbrella module: the equivalence theorems between the Rust functions translated on every run (`Gen/Rs/*.lean`, by
-`/verif/translator`) and the hand-written model live in `Props/Translated/*.lean`, one file per Rust source. -/
+`/verif/translator`) and the hand-written model live in `Props/Translated/*.lean`, one file per Rust source / topic.
+The first ten targets are listed in `Props/Translated/Basic.lean`; round 2 added:
+
+| Rust                                                            | generated `Inkayaku.Rs.…` (module)                 | model                              | theorems (file) |
+|-----------------------------------------------------------------|----------------------------------------------------|------------------------------------|-----------------|
+| `HashTable::{new, clear, put, get, len}`                        | `HashTable.new` … (`Table`)                        | `Table.new/clear/put/get/len`      | `rs_table_new_eq`, `rs_table_clear_eq`, `rs_table_put_eq`, `rs_table_put_no_panic`, `rs_table_get_eq`, `rs_table_len_eq`, `rs_table_run_eq`, `rs_table_run_spec` (`Table.lean`) |
+| `magic_hash`, `MagicConfiguration::{hash, get_attacks}`, `Magics::get_attacks` | `magic_hash`, `MagicConfiguration.get_attacks`, `Magics.get_attacks` (`Magic`) | `Magic.magicIndex`, `lookup`, `Board.rookAttacks/bishopAttacks` | `rs_magic_hash_eq`, `rs_magic_get_attacks_eq`, `rs_rook_attacks_eq`, `rs_bishop_attacks_eq`, `rs_rook_magics_eq`, `rs_bishop_magics_eq` (`Magic.lean`) |
+| constants.rs masks / shifts / piece codes, `impl Move` getters, setters, predicates | `PIECE_MOVED_MASK` …, `Move.get_piece_moved` … (`MoveBits`) | `Gen.BoardConsts`, `Board.decode` (= `Move.f`), `Board.encode` | `rs_move_masks`, `rs_move_shifts`, `rs_piece_consts`, `rs_move_decode_eq`, `rs_move_encode_eq`, `rs_move_roundtrip`, `rs_is_attack_eq`, `rs_is_promotion_eq` (`MoveBits.lean`) |
+| `Bitboard::{is_valid, is_current_in_check, is_in_check, _is_in_check_by_bits, _is_square_in_check}`, `PlayerState::{kings, …, full_occupancy}`, `opposite_color` | `Bitboard.is_valid` … (`Check`) | `Board.isValid`, `isCurrentInCheck`, `inCheck`, `squareInCheck` | `rs_is_square_in_check_eq`, `rs_is_in_check_by_bits_eq`, `rs_is_current_in_check_eq`, `rs_is_in_check_eq`, `rs_is_valid_eq` (`Check.lean`) |
+| `Bitboard::zobrist_xor`                                         | `Bitboard.zobrist_xor` (`ZobristXor`)              | `Zobrist.xorOf`                    | `rs_zobrist_xor_eq`, `rs_zobrist_xor_move` (`ZobristXor.lean`) |
+| `Bitboard::{make, unmake, make_castle, unmake_castle}`, `get_active_and_passive_mut`, `PlayerState::{occupancy_ref, kings_ref, rooks_ref, pawns_ref}` | `Bitboard.make`, `.unmake`, `.make_castle` … (`MakeUnmake`) | `Board.makeF`, `unmakeF` (`make`, `unmake`) | `rs_make_eq`, `rs_unmake_eq`, `rs_make_move_eq`, `rs_unmake_move_eq`, `rs_make_castle_eq` (`MakeUnmake.lean`) |
+
+Mutation sanity check of all of these: `/verif/translator/mutation_check.sh`. -/
